@@ -16,7 +16,8 @@ type Feature struct {
 	role        model.RoleType
 	operations  map[model.FunctionType]api.OperationsInterface
 
-	muxOperations sync.RWMutex
+	muxOperations  sync.RWMutex
+	muxDescription sync.RWMutex
 }
 
 var _ api.FeatureInterface = (*Feature)(nil)
@@ -57,14 +58,23 @@ func (r *Feature) Operations() map[model.FunctionType]api.OperationsInterface {
 }
 
 func (r *Feature) Description() *model.DescriptionType {
+	r.muxDescription.RLock()
+	defer r.muxDescription.RUnlock()
+
 	return r.description
 }
 
 func (r *Feature) SetDescription(d *model.DescriptionType) {
+	r.muxDescription.Lock()
+	defer r.muxDescription.Unlock()
+
 	r.description = d
 }
 
 func (r *Feature) SetDescriptionString(s string) {
+	r.muxDescription.Lock()
+	defer r.muxDescription.Unlock()
+
 	r.description = util.Ptr(model.DescriptionType(s))
 }
 
